@@ -1,3 +1,5 @@
 import LpModel.C20.Units
 import LpModel.C20.Generated
 import LpModel.C20.IO
+import LpModel.C20.Time
+import LpModel.C20.Text
